@@ -154,6 +154,7 @@ def check_env_modes(ctx, env, name, idx):
 def run(ctx):
     for i in range(ctx.budget(5, 25)):
         check_collection(ctx, i)
+        ctx.gc(4)
     envs = [("CartPole", CartPole()), ("MountainCar", MountainCar()), ("Pendulum", Pendulum()),
             ("Acrobot", Acrobot()), ("ContinuousMountainCar", ContinuousMountainCar()),
             ("TimeLimit(CartPole)", TimeLimit(CartPole(), 5)),
@@ -164,6 +165,7 @@ def run(ctx):
         envs = [envs[i] for i in (0, 2, 5, 6, 8)]
     for i, (name, env) in enumerate(envs):
         check_env_modes(ctx, env, name, i)
+        ctx.gc(2)
     if not ctx.quick:
         try:
             from lerax.env.mujoco import InvertedPendulum
